@@ -140,7 +140,11 @@ class SimCondition:
 		wid = t.new_wait(("condition", timeout))
 		self.waiters.append((t, wid))
 		if timeout is not None:
-			sim.at(sim.now + max(0, int(round(timeout * 1e9))), lambda: t.wake(wid, "timeout"))
+			ns = max(0, int(round(timeout * 1e9)))
+			late = sim.faults.next("wake-latency") if sim.faults is not None else 0
+			sim.record("wait-enter", thread=t.name, timeout_ns=ns, late=late, how="condition")
+			t.wake_at = sim.now + ns + late
+			sim.at(sim.now + ns + late, lambda: t.wake(wid, "timeout"))
 		reason = sim.block(t)
 		self.lock.acquire()
 		if hasattr(self.lock, "depth"):
@@ -495,6 +499,118 @@ class SelectSeam:
 				return [], [], []
 
 
+# ---------------------------------------------------------------- selectors -----------
+class SimSelectorKey(tuple):
+	"""Stand-in for selectors.SelectorKey (fileobj, fd, events, data)."""
+	__slots__ = ()
+	fileobj = property(lambda self: self[0])
+	fd = property(lambda self: self[1])
+	events = property(lambda self: self[2])
+	data = property(lambda self: self[3])
+
+
+class SimSelector:
+	def __init__(self, sim, net):
+		self._sim = sim
+		self._net = net
+		self._keys = {}
+
+	def register(self, fileobj, events, data=None):
+		if id(fileobj) in self._keys:
+			raise KeyError("already registered")
+		k = SimSelectorKey((fileobj, fileobj.fileno() if hasattr(fileobj, "fileno") else -1, events, data))
+		self._keys[id(fileobj)] = k
+		return k
+
+	def unregister(self, fileobj):
+		return self._keys.pop(id(fileobj))
+
+	def modify(self, fileobj, events, data=None):
+		self.unregister(fileobj)
+		return self.register(fileobj, events, data)
+
+	def get_key(self, fileobj):
+		return self._keys[id(fileobj)]
+
+	def get_map(self):
+		return {k.fileobj: k for k in self._keys.values()}
+
+	def select(self, timeout=None):
+		socks = [k.fileobj for k in self._keys.values() if k.events & 1]
+		ready, _, _ = SelectSeam(self._sim, self._net).select(socks, [], [], timeout)
+		return [(self._keys[id(s)], 1) for s in ready]
+
+	def close(self):
+		self._keys.clear()
+
+	def __enter__(self):
+		return self
+
+	def __exit__(self, *a):
+		self.close()
+
+
+class SelectorsSeam:
+	EVENT_READ = 1
+	EVENT_WRITE = 2
+	SelectorKey = SimSelectorKey
+
+	def __init__(self, sim, net):
+		self._sim = sim
+		self._net = net
+
+	def DefaultSelector(self):
+		return SimSelector(self._sim, self._net)
+
+	SelectSelector = PollSelector = EpollSelector = DefaultSelector
+
+
+# ---------------------------------------------------------------- Thread subclasses ----
+_ACTIVE = {"sim": None}
+
+
+def _thread_start(self):
+	from .kernel import _THREAD_START
+	sim = _ACTIVE["sim"]
+	if sim is None or getattr(self, "_vp_real", False):
+		return _THREAD_START(self)
+	if getattr(self, "_vp_handle", None) is not None:
+		raise RuntimeError("threads can only be started once")
+	h = sim.spawn(self.run, None)  # simulator-assigned name: real default names count per process
+	self._vp_handle = h
+	sim.start_thread(h)
+
+
+def _thread_join(self, timeout=None):
+	from .kernel import _THREAD_JOIN
+	h = getattr(self, "_vp_handle", None)
+	sim = _ACTIVE["sim"]
+	if h is None or sim is None:
+		if sim is not None and not getattr(self, "_vp_real", False) and getattr(self, "_vp_handle", None) is None:
+			raise RuntimeError("cannot join thread before it is started")
+		return _THREAD_JOIN(self, timeout)
+	if h.state in (SimThread.DONE, SimThread.NEW):
+		return
+	t = sim.cur()
+	if t is h:
+		raise RuntimeError("cannot join current thread")
+	wid = t.new_wait(("join", h.name))
+	h.joiners.append((t, wid))
+	if timeout is not None:
+		sim.at(sim.now + int(round(timeout * 1e9)), lambda: t.wake(wid, "timeout"))
+	sim.block(t)
+
+
+def _thread_is_alive(self):
+	from .kernel import _THREAD_IS_ALIVE
+	h = getattr(self, "_vp_handle", None)
+	if h is None:
+		if _ACTIVE["sim"] is not None and not getattr(self, "_vp_real", False):
+			return False
+		return _THREAD_IS_ALIVE(self)
+	return h.state in (SimThread.RUNNABLE, SimThread.BLOCKED)
+
+
 # ---------------------------------------------------------------- installation --------
 def install_seams(modules, patch, sim, net=None, env=None):
 	"""Replace, in every given toolkit module, whatever it holds of threading / time / socket /
@@ -502,12 +618,19 @@ def install_seams(modules, patch, sim, net=None, env=None):
 	simulated counterparts.  `patch(module, name, value)` records and applies one replacement."""
 	import random as _random
 	import select as _select
+	import selectors as _selectors
 	import socket as _socket
 	import threading as _threading
 	import time as _time
 	thr = ThreadingSeam(sim)
 	tm = TimeSeam(sim)
 	by_module = {_threading: thr, _time: tm}
+	# threads of a threading.Thread subclass (bound to the real class at import time) are
+	# started, joined and queried through the class itself: divert that for this run
+	_ACTIVE["sim"] = sim
+	patch(_threading.Thread, "start", _thread_start)
+	patch(_threading.Thread, "join", _thread_join)
+	patch(_threading.Thread, "is_alive", _thread_is_alive)
 	names = {}
 	for n in ("Thread", "Event", "Lock", "RLock", "Condition", "Semaphore", "BoundedSemaphore", "current_thread", "get_ident"):
 		names[id(getattr(_threading, n))] = getattr(thr, n)
@@ -518,6 +641,7 @@ def install_seams(modules, patch, sim, net=None, env=None):
 		selmod = SelectSeam(sim, net)
 		by_module[_socket] = sockmod
 		by_module[_select] = selmod
+		by_module[_selectors] = SelectorsSeam(sim, net)
 		names[id(_socket.socket)] = sockmod.socket
 		names[id(_select.select)] = selmod.select
 	if env is not None:
@@ -538,3 +662,7 @@ def install_seams(modules, patch, sim, net=None, env=None):
 			if rep is not None and not isinstance(val, (int, float, str, bytes, tuple)):
 				patch(mod, name, rep)
 	return thr, tm
+
+
+def uninstall_seams():
+	_ACTIVE["sim"] = None
